@@ -32,7 +32,7 @@ m = {
                  'kind_free_text': 'repository-specific static analysis in Python over clang-14 JSON ASTs of the real compilation units: structured CFG path enumeration with linear-relation entailment, effect/ordering rules, table/sibling agreement rules, GF(2)-affine bit-provenance abstract interpretation'}],
     'checks': checks,
     'not_applicable': na,
-    'notes': 'Exit codes of ./check: 0 property held on everything analysed (KNOWN-FINDING lines possible), 1 VIOLATION, 2 ANALYSIS-BROKEN (anchor vanished / construct outside the analysis; never reported as pass or violation). Known findings: known_findings.json. Rules identify their instances by role, not by spelling: ufwsa/known_functions.json freezes the functions (with parameter / local names) of the tree the rules were confirmed on; helpers newer than that table are looked through, renamed parameters and locals get their confirmed names back in the loaded tree, loop accounts (index up / remaining count down / walking pointer) are found by what every iteration does to them. Validation sets, re-run after every change of the machinery: corpus/ (./corpus_tool: mutants reported, equivalent rewrites silent), seeded/ (./seed_tool.py recheck: 123 independent mutants reported), refactors/ (./refactor_tool.py recheck: 161 independent behaviour-preserving rewrites; none may raise a VIOLATION).',
+    'notes': 'Exit codes of ./check: 0 property held on everything analysed (KNOWN-FINDING lines possible), 1 VIOLATION, 2 ANALYSIS-BROKEN (anchor vanished / construct outside the analysis; never reported as pass or violation). Known findings: known_findings.json. Rules identify their instances by role, not by spelling: ufwsa/known_functions.json freezes the functions (with parameter / local names) of the tree the rules were confirmed on; helpers newer than that table are looked through, renamed parameters and locals get their confirmed names back in the loaded tree, loop accounts (index up / remaining count down / walking pointer) are found by what every iteration does to them. Validation sets, re-run after every change of the machinery: corpus/ (./corpus_tool: mutants reported, equivalent rewrites silent), seeded/ (./seed_tool.py recheck: 160+ independent mutants reported), refactors/ (./refactor_tool.py recheck: 161 independent behaviour-preserving rewrites; none may raise a VIOLATION).',
 }
 json.dump(m, open(os.path.join(HERE, 'MANIFEST.json'), 'w'), indent=1)
 print('claimed', len(checks), 'n/a', len(na))
